@@ -124,8 +124,8 @@ func (d *UpGrid) Cases(tier string) []GridCase {
 	var out []GridCase
 	flags := []string{"notary=absent", "notary=false", "notary=true/ballots=absent", "notary=true/ballots=empty", "notary=true/ballots=stale", "notary=true/ballots=fresh", "notary=false/ballots=fresh"}
 	data := map[string][]string{
-		"balance":   {"unprefixed", "prefixed", "mixed", "empty"},
-		"container": {"unprefixed", "prefixed", "mixed"},
+		"balance":   {"unprefixed", "prefixed", "mixed", "empty", "unprefixed-every-first-byte"},
+		"container": {"unprefixed", "prefixed", "mixed", "unprefixed-every-first-byte"},
 		"netmap":    {"ring10", "ring12", "ring3"},
 		"nns":       {"names"},
 	}
@@ -303,6 +303,23 @@ func (d *UpGrid) legacy(w *World, c upCase, put func(k, v []byte)) []upExpect {
 			ex = append(ex, upExpect{method: "totalSupply", want: "i0"}, upExpect{method: "balanceOf", args: []any{a1}, want: "i0", note: "A1"})
 			break
 		}
+		if dataVar == "unprefixed-every-first-byte" {
+			// 256 legacy (un-prefixed) accounts, one per value of the address's first byte
+			total := int64(0)
+			for b := 0; b < 256; b++ {
+				a := util.Uint160{byte(b), 0x77}
+				put(a.BytesBE(), acct(int64(b)+1, 0, nil))
+				total += int64(b) + 1
+				ex = append(ex, upExpect{method: "balanceOf", args: []any{a}, want: fmt.Sprintf("i%d", b+1), note: fmt.Sprintf("address starting with %02x", b)})
+			}
+			put([]byte("MainnetGAS"), leInt(total))
+			if c.V < 17000 {
+				put([]byte("netmapScriptHash"), d.fake[0].BytesBE())
+				put([]byte("containerScriptHash"), d.fake[1].BytesBE())
+			}
+			ex = append(ex, upExpect{method: "totalSupply", want: fmt.Sprintf("i%d", total)})
+			break
+		}
 		key := func(a util.Uint160, i int) []byte {
 			pre := dataVar == "prefixed" || (dataVar == "mixed" && i%2 == 1)
 			if pre {
@@ -335,6 +352,32 @@ func (d *UpGrid) legacy(w *World, c upCase, put func(k, v []byte)) []upExpect {
 		cid2 := cid2A[:]
 		cnr := func(b []byte) []byte {
 			return ser(stackitem.NewStruct([]stackitem.Item{stackitem.Make(b), stackitem.Make([]byte("sig")), stackitem.Make([]byte("pub")), stackitem.Make([]byte("tok"))}))
+		}
+		if dataVar == "unprefixed-every-first-byte" {
+			// 256 legacy (un-prefixed) containers, one per value of the id's first byte: raw ids
+			// share the key space with every one-letter prefix of the current layout
+			var all []string
+			found := map[byte]bool{}
+			for nonce := 0; len(found) < 256; nonce++ {
+				b := append([]byte{}, blob...)
+				b[70], b[71], b[72] = byte(nonce), byte(nonce>>8), byte(nonce>>16)
+				idA := sha256.Sum256(b)
+				if found[idA[0]] {
+					continue
+				}
+				found[idA[0]] = true
+				id := idA[:]
+				put(id, cnr(b))
+				put(append(append([]byte{}, owner...), id...), id)
+				all = append(all, fmt.Sprint(NX(id)))
+				ex = append(ex, upExpect{method: "get", args: []any{id}, contains: Hx(b), note: fmt.Sprintf("id starting with %02x", id[0])},
+					upExpect{method: "owner", args: []any{id}, want: fmt.Sprint(NX(owner)), note: fmt.Sprintf("id starting with %02x", id[0])})
+			}
+			ex = append(ex, upExpect{method: "count", want: "i256"},
+				upExpect{method: "list", args: []any{owner}, set: true, want: fmt.Sprint(sortedStrs(all...)), note: "owner"},
+				upExpect{method: "list", args: []any{[]byte{}}, set: true, want: fmt.Sprint(sortedStrs(all...)), note: "all"},
+				upExpect{method: "containersOf", args: []any{owner}, set: true, want: fmt.Sprint(sortedStrs(all...)), note: "owner"})
+			break
 		}
 		pre := func(i int) bool { return dataVar == "prefixed" || (dataVar == "mixed" && i == 1) }
 		for i, p := range []struct{ id, b []byte }{{cid, blob}, {cid2, blob2}} {
